@@ -365,8 +365,13 @@ func (t *Dense) ShallowClone() *Dense {
 	retVal.flag = t.flag
 	retVal.array = t.array
 
-	retVal.old = t.old
-	retVal.transposeWith = t.transposeWith
+	if !t.old.IsZero() {
+		t.old.CloneTo(&retVal.old)
+	}
+	if t.transposeWith != nil {
+		retVal.transposeWith = BorrowInts(len(t.transposeWith))
+		copy(retVal.transposeWith, t.transposeWith)
+	}
 	retVal.viewOf = t.viewOf
 	retVal.mask = t.mask
 	retVal.maskIsSoft = t.maskIsSoft
